@@ -24,11 +24,14 @@ static bool handle_runtime_error(sqf::runtime::runtime& runtime, sqf::runtime::c
     std::vector<sqf::runtime::frame> stacktrace_frames(context_active.frames_rbegin(), context_active.frames_rend());
     sqf::runtime::diagnostics::stacktrace stacktrace(stacktrace_frames);
 
-    // Try to find a frame that has recover behavior for runtime error
+    // Try to find a frame that has recover behavior for runtime error.
+    // A frame may decline (try-catch only handles thrown values, an except__
+    // handler that already took over does not guard its own handler code):
+    // such a frame is left like any other and the search continues outwards,
+    // so that the error is never swallowed.
     auto res = std::find_if(context_active.frames_rbegin(), context_active.frames_rend(),
         [](sqf::runtime::frame& frame) -> bool { return frame.can_recover_runtime_error(); });
-
-    if (res != context_active.frames_rend())
+    while (res != context_active.frames_rend())
     { // We found a recoverable frame
         stacktrace.value = std::make_shared<sqf::types::d_array>(log_messages.begin(), log_messages.end());
         // Push Stacktrace to value-stack
@@ -42,14 +45,20 @@ static bool handle_runtime_error(sqf::runtime::runtime& runtime, sqf::runtime::c
         }
 
         // Recover from exception
-        context_active.current_frame().recover_runtime_error(runtime);
-        runtime_error = false;
+        if (context_active.current_frame().recover_runtime_error(runtime) != sqf::runtime::frame::result::error)
+        {
+            runtime_error = false;
 #ifdef SQFVM_RUNTIME_VERIF
-        sqf::runtime::verif::observe(sqf::runtime::verif::obs::err_unwind, runtime, frames_to_pop);
+            sqf::runtime::verif::observe(sqf::runtime::verif::obs::err_unwind, runtime, frames_to_pop);
 #endif
-        return true;
+            return true;
+        }
+        // Declined: drop that frame together with its operands and look further out
+        context_active.clear_values();
+        context_active.pop_frame();
+        res = std::find_if(context_active.frames_rbegin(), context_active.frames_rend(),
+            [](sqf::runtime::frame& frame) -> bool { return frame.can_recover_runtime_error(); });
     }
-    else
     { // No recover frame available, exit method
 #ifdef DF__SQF_RUNTIME__ASSEMBLY_DEBUG_ON_EXECUTE
         std::cout << "\x1B[33m[ASSEMBLY ASSERT]\033[0m" <<
